@@ -37,7 +37,9 @@ def router_equivalence(tier):
     def pred(p):
         return lambda: LocatedRequestChecker(create_loc_stack_checker(p))
     atoms = [("Xint", exact(int)), ("Xstr", exact(str)), ("Xlist", exact(list)), ("Xbool", exact(bool)), ("T", lambda: Const(True)),
-             ("F", lambda: Const(False)), ("Pint", pred(int)), ("Pa", pred(P.a))]
+             ("F", lambda: Const(False)), ("Pint", pred(int)), ("Pa", pred(P.a)),
+             # alternatives of exact origins (P[int, str], enum_by_name(A, B), ...): one provider standing for several origins
+             ("Pint|str", pred(P[int, str])), ("Pstr|bool", pred(P[str, bool]))]
     field = InputFieldLoc(type=int, field_id="a", default=NoDefault(), metadata={}, is_required=True)
     stacks = [
         ("int", LocStack(TypeHintLoc(type=int))), ("str", LocStack(TypeHintLoc(type=str))), ("bool", LocStack(TypeHintLoc(type=bool))),
